@@ -41,6 +41,7 @@ class Program:
     # optional post-exploration check over the set of outcomes: (outcomes dict) -> violations
     post: Callable[[dict[str, int]], list[tuple[str, dict[str, Any], str]]] | None = None
     min_concurrency: int = 0
+    time_budget_s: float | None = None  # wall-clock cap for exploring this program (reported as a cap)
 
 
 @dataclass
@@ -115,8 +116,12 @@ def _run_one(idx: int) -> ProgResult:
         return obs
 
     try:
+        import time as _t
+
+        budget = p.time_budget_s if p.time_budget_s is not None else float(os.environ.get("VMC_PROGRAM_BUDGET_S", "0") or 0)
         st: ExploreStats = explore(
-            run_fn, max_dev=p.max_dev, max_execs=p.max_execs, prune=p.prune, outcome_key=p.outcome_key
+            run_fn, max_dev=p.max_dev, max_execs=p.max_execs, prune=p.prune, outcome_key=p.outcome_key,
+            deadline=(_t.perf_counter() + budget) if budget else None,
         )
     except BaseException:  # noqa: BLE001
         pr.error = traceback.format_exc()
